@@ -101,7 +101,7 @@ func TestC16(t *testing.T) {
 			}
 			applied = []Fault{{Kind: "delete-or-rewrite-all", Path: "*"}}
 		default:
-			damaged, applied = ApplyFaults(signed, GenFaults(rt, signed, FaultOpts{Content: true, Delete: true, KindSwap: true, Links: true, MaxFaults: 5}))
+			damaged, applied = ApplyFaults(signed, GenFaults(rt, signed, FaultOpts{Content: true, Delete: true, KindSwap: true, Links: true, Special: true, MaxFaults: 5}))
 		}
 		differs := signed.Diff(damaged) != ""
 		cmode := rapid.SampledFrom([]string{"failfast", "failfast", "failfast", "woundsfile", "woundsfile-unwritable", "printer", "heal", "heal-missing-archive", "heal-corrupt-archive"}).Draw(rt, "consumer")
@@ -132,6 +132,9 @@ func TestC16(t *testing.T) {
 		defer cleanup()
 		pristine := filepath.Join(dir, "signed")
 		si := signTree(signed, pristine)
+		if rapid.IntRange(0, 3).Draw(rt, "shuffledirs") == 0 {
+			shuffleDirs(si, rapid.Uint64().Draw(rt, "shuffleseed"))
+		}
 		target := filepath.Join(dir, "target")
 		Must(damaged.Materialize(target), "materialize damaged")
 		countFaults(applied)
